@@ -434,6 +434,20 @@ func (d *DB) Apply(s Stmt) (ErrKind, error) {
 		if _, ok := d.Tables[s.Table]; ok {
 			return ErrTableExists, nil
 		}
+		// the catalog stores one row per table (name, root offset) and one per
+		// column (table name, column name, type, length as INT): the same
+		// value rules apply to them as to any other row
+		if 1+4+len(s.Table)+1+8 > MaxRowBytes {
+			return ErrRowTooLarge, nil
+		}
+		for _, c := range s.Cols {
+			if c.Len > math.MaxInt32 || c.Len < math.MinInt32 {
+				return ErrIntRange, nil
+			}
+			if 1+4+len(s.Table)+1+4+len(c.Name)+1+4+1+4 > MaxRowBytes {
+				return ErrRowTooLarge, nil
+			}
+		}
 		d.Tables[s.Table] = &Table{Name: s.Table, Cols: append([]Col{}, s.Cols...)}
 		d.Order = append(d.Order, s.Table)
 		return OK, nil
